@@ -427,12 +427,16 @@ class Interp:
             for st in tree.body:
                 if isinstance(st, ast.Assign) and any(isinstance(t, ast.Name) and t.id == name for t in st.targets):
                     return self.eval_in_module(st.value, module)
-        if name in self.reg.handlers:
-            return Fn(self.reg.handlers[name], name)
-        if name in self.reg.consts:
-            return self.reg.consts[name]
-        if name in self.reg.builtin_types:
-            return ClassRef(name)
+        import builtins as _bi
+        # only genuine Python builtins may be resolved by bare name; a registry entry called like a library function (`device`,
+        # `deepcopy`, ...) must have been imported by the module to be visible in it
+        if hasattr(_bi, name):
+            if name in self.reg.handlers:
+                return Fn(self.reg.handlers[name], name)
+            if name in self.reg.consts:
+                return self.reg.consts[name]
+            if name in self.reg.builtin_types:
+                return ClassRef(name)
         self.unsupported(f"unbound name {name}", node)
 
     def resolve_relative(self, module, rel):
@@ -705,6 +709,17 @@ class Interp:
         self.frames.append(fr)
         try:
             return self.ev(expr)
+        finally:
+            self.frames.pop()
+
+    def eval_expr(self, src, module, env):
+        """evaluate a Python expression (text) in the context of a repo module with the given local names: used by contracts to state a clause
+        as `the result equals what <reference repo function> computes on ...`"""
+        fr = Frame(module)
+        fr.env.update(env)
+        self.frames.append(fr)
+        try:
+            return self.ev(ast.parse(src, mode="eval").body)
         finally:
             self.frames.pop()
 
